@@ -21,7 +21,7 @@ class ProgGen:
         self.n_threads = n_threads or rng.choice([2, 2, 3, 3, 4])
         self.reads, self.nexts = reads, nexts
         self.nid = 1
-        self.ts = 10
+        self.ts = rng.choice([10, 10, 1_790_000_000_000_000_000, (1 << 64) - 500])
 
     def order(self, positive=True):
         r = self.rng
